@@ -39,7 +39,7 @@ type world struct {
 func newWorld(seed int64) *world {
 	r := rand.New(rand.NewSource(seed*977 + 3))
 	w := &world{addr: map[string]boson.Address{}, name: map[string]string{}}
-	for _, n := range []string{"A", "B", "R"} {
+	for _, n := range []string{"A", "B", "R", "C"} {
 		b := make([]byte, 32)
 		r.Read(b)
 		w.addr[n] = boson.NewAddress(b)
@@ -156,7 +156,7 @@ func dump(w *world, db *localstore.DB) (kit.Ev, error) {
 		return nil, err
 	}
 	per := map[string]interface{}{}
-	for _, n := range []string{"A", "B", "R"} {
+	for _, n := range []string{"A", "B", "C", "R"} {
 		per[n] = []interface{}{0, 0, 0, 0}
 	}
 	data := [][]interface{}{}
@@ -190,7 +190,7 @@ func dump(w *world, db *localstore.DB) (kit.Ev, error) {
 		byRoot[n] += int(e.GCounter)
 	}
 	roots := [][]interface{}{}
-	for _, n := range []string{"A", "B", "R"} {
+	for _, n := range []string{"A", "B", "C", "R"} {
 		if byRoot[n] > 0 {
 			roots = append(roots, []interface{}{n, byRoot[n]})
 		}
